@@ -60,6 +60,9 @@ package node
 //@   loop 2 invariant @sup Lsupply == old(upd(batchSup(Lsupply, txs, iter1, currentHeight, rates, averages, burn), txs[iter1].Input.Type, batchSup(Lsupply, txs, iter1, currentHeight, rates, averages, burn)[txs[iter1].Input.Type] - txs[iter1].Input.Amount + sumNonBurn(txs[iter1].Transfers, iter, burn)))
 //@   loop 2 invariant @rel Lrel[H] && Lexec == upd(old(Lexec), H, currentHeight) && (forall h factom.Bytes32 :: h != H ==> (Lrel[h] <==> old(Lrel)[h]))
 //@   loop 2 invariant @tx_is_transfer old(!isConv(txs[iter1]) && !pegDeferred(currentHeight, txs, iter1))
+//@   // the burn-address rule exists from 2.0.2 on; before that every named recipient of a transfer is credited (C04).  The code
+//@   // compares with a variable that is only set from 2.0.2 on, i.e. with the all-zero address before (F15): checked, not assumed
+//@   loop 2 body-check @every_named_recipient_is_credited_before_2_0_2{C04} currentHeight < config.V202EnhanceActivation ==> tx.Transfers[iter].Address != FAGlobalBurnAddress
 //@   loop 1 no-break
 //@   loop 2 no-break
 //@
